@@ -54,7 +54,15 @@ class Builder:
         if strip:
             rule = {"when": {"pattern": pattern}}
             if mode == "cond":
-                rule["condition"] = {"code": code}
+                cond = {"code": code}
+                # the code term may sit anywhere in a condition: a one-element `and`/`or` changes nothing, and under `not`
+                # an erroring script is still an error (never "kept because the negated query yielded nothing")
+                w = self.rng.random()
+                if w < 0.15: cond = {"and": [cond]}
+                elif w < 0.30: cond = {"or": [cond]}
+                elif w < 0.55 and family in ("throw", "syntax"): cond = {"not": cond}
+                elif w < 0.65 and family in ("throw", "syntax"): cond = {"and": [{"not": {"or": [cond]}}]}
+                rule["condition"] = cond
                 rule["action"] = {"code": "({ran: true})"}
             else:
                 rule["action"] = {"code": code}
